@@ -18,8 +18,8 @@ MANIFEST = dict(
           "with the objective at feasible points with zero multipliers (the linear penalty's gradient only up to the "
           "sub-gradient it picks at h = 0: refuted as an equality), sub-gradient inequality whenever the convex flag is "
           "set, stored ceq/cineq are the constraint values at the stored point whatever the arrays held before, and "
-          "`converged` => every |h_j| <= eps and max(g_i, 0) <= eps at the returned point for every oracle history "
-          "(invariant viol(best) <= old_criterion, rounded operations abstracted by sign-preservation hypotheses). The "
+          "`converged` => every |h_j| <= eps and max(g_i, 0) <= eps at the returned point for every oracle history and every "
+          "rounding of the loop's arithmetic (invariant viol(best) <= old_criterion). The "
           "boolean/integer decisions of the model are regenerated from the source on every run; the extracted model is "
           "compared with the real library: bit-exactly on integer-valued problems and for the whole outer loop observed "
           "through the NANO_VERIF hooks, within 1e-11 of the summed magnitudes on random doubles; independent long-double "
@@ -217,9 +217,7 @@ def run(tier, replay=None):
                          "extraction: ExtrOcamlBasic + ExtrOcamlZBigInt (positive/Z mapped to Zarith big integers)",
                          "ocaml/c05_driver.ml (exact double->Q conversion, IEEE instantiation of the rounded operations, tolerances), "
                          "harness/c05_penalty.cpp, g++ -O2",
-                         "NANO_VERIF hooks ev_al_outer / ev_solver_done / ev_solver_exit deliver the values the loop really used",
-                         "IEEE-754 binary64 round-to-nearest satisfies the sign-preservation hypotheses of C05_al_feasible "
-                         "(x<=0, y>0 => x/y <= 0; g>1, r>0 => g*r > 0 incl. overflow to +inf)"])
+                         "NANO_VERIF hooks ev_al_outer / ev_solver_done / ev_solver_exit deliver the values the loop really used"])
     cov = r.coverage
     cov["evaluations"] = evaluations
     cov["correspondence_lines_checked"] = checked
@@ -242,7 +240,8 @@ def run(tier, replay=None):
     cov["objective_histogram"] = {k[10:]: v for k, v in counters.items() if k.startswith("objective:")}
     cov["al_family_histogram"] = {k[10:]: v for k, v in counters.items() if k.startswith("al-family:")}
     cov["al_status_histogram"] = {STATUS.get(k[10:], k[10:]): v for k, v in counters.items() if k.startswith("al-status:")}
-    for k in ("feasible", "feasible-zero-mult", "al-boundary", "al-converged", "al-outer-iterations", "al-inner-done-events"):
+    for k in ("feasible", "feasible-zero-mult", "al-boundary", "al-converged", "al-outer-iterations", "al-inner-done-events",
+              "convex-flag-checked"):
         cov[k.replace("-", "_")] = counters.get(k, 0)
     cov["model_stats"] = dict(model_stats)
     cov["mismatches"] = len(mism)
@@ -253,8 +252,6 @@ def run(tier, replay=None):
         "inputs, |diff| <= 1e-11 x (sum of the magnitudes of the summed terms) on random doubles (the theorems are over Q)",
         "gradient = derivative for functional constraints and for the objective (oracles of the model)",
         "the eigenvalue test nano::convex(P) and function_t::convex() really mean convexity (hypotheses of C05_convex_flag)",
-        "IEEE instantiation of the rounded operations satisfies the sign hypotheses of C05_al_feasible (checked on every step "
-        "through the bit-exact replay of the loop)",
         "solver_state_t::update_if_better keeps ceq/cineq in step with the stored point (implementation-side check)",
         "value-only evaluation (no gradient buffer) returns the same value (implementation-side check)",
         "make_function(program) registers exactly the program's constraints (implementation-side check)"]
